@@ -388,10 +388,16 @@ bool ManifestParser::ParseEdge(string* err) {
     // build graph but that has since been fixed.  Filter them out to
     // support users of those old CMake versions.
     Node* out = edge->outputs_[0];
+    // Self-references among the order-only inputs come off that count too
+    // (there are no implicit inputs, see maybe_phonycycle_diagnostic()).
+    int order_only_removed = static_cast<int>(
+        count(edge->inputs_.end() - edge->order_only_deps_,
+              edge->inputs_.end(), out));
     vector<Node*>::iterator new_end =
         remove(edge->inputs_.begin(), edge->inputs_.end(), out);
     if (new_end != edge->inputs_.end()) {
       edge->inputs_.erase(new_end, edge->inputs_.end());
+      edge->order_only_deps_ -= order_only_removed;
       if (!quiet_) {
         Warning("phony target '%s' names itself as an input; "
                 "ignoring [-w phonycycle=warn]",
